@@ -1,6 +1,6 @@
 """C12 Third-order response: exact orientational average, additivity, symmetry.
 
-E-grid, five complete products.
+E-grid, six complete products.
 
 Section `lab` (prefactor clause at the level of LabSetup.F4eM4 / liouville_pathway.build /
 orientational_averaging): every polarisation four-tuple from {X, Y, Z, (X+Y)/sqrt2, magic-angle
@@ -79,6 +79,20 @@ reference oracles uncoupled (molecules as new objects), pref, total are applied 
 A failing history is reduced to its shortest failing sub-history, which names the key
 (`after=<request>[><request>]`).  Start-state dimension: every history is run on an aggregate that
 was built and diagonalised and on one that was only built (`.../aggregate-not-diagonalized/...`).
+
+Section `pollen` (polarisation vectors of general LENGTH; all other sections pass unit vectors):
+each of the four vectors is f_k x (unit vector u_k); ALL factor four-tuples (f_1..f_4) from
+{1, 2, 1/2} (thorough: also -3/2, 1e-3) x ALL direction four-tuples from the non-axis directions
+{D, G} (thorough {D, G, M}; G = (2,-3,6)/7).  Level `lab`: inside every direction four-tuple all
+4^4 dipole four-tuples x three side patterns on stub pathways, every factor four-tuple
+through LabSetup.set_pulse_polarizations -> orientational_averaging; clause pref with the SO(3)
+average evaluated for the vectors actually passed (`pref/pol-length/lab/value/<which lengths
+break it>`).  Level `sys`: real pipeline, system (quick: coupled dimer; thorough: dimers J = 0,
+80, -150 and the coupled trimer) x line shape x direction four-tuple, inside ALL factor
+four-tuples: pref on the prefactors as the pipeline made them for the vectors passed, pathway
+census independent of the lengths, response[f e] == f1 f2 f3 f4 response[e] for REPH, NONR and
+total (pref + ledger clause => the response is linear in every polarisation vector), total ==
+REPH + NONR (`pol-length/...`).
 
 Clauses and oracles (tolerance class R everywhere: 1e-10 * scale)
   pref      pathway.pref == sign * rho0 * evolution factor * <prod_k e_k . R d_k>_SO(3), the average
@@ -1509,6 +1523,202 @@ def reuse_step_pols(calc, S, labs, pols, api, t2s):
 
 
 # ------------------------------------------------------------------------------------------
+# section `pollen`: polarisation vectors of general LENGTH
+# ------------------------------------------------------------------------------------------
+# Every other section hands unit vectors to LabSetup.  Here each of the four vectors is
+# e_k = f_k * (unit vector u_k): the four-tuple (f_1..f_4) runs over ALL four-tuples of the factor
+# set of the tier, the directions over ALL four-tuples of a set of NON-AXIS directions
+# (D: in the xy plane, G: generic, M: magic angle in the xz plane).  The clause is the one of the
+# property (quantifier: all polarisation four-tuples): pref == sign * rho0 * evf * < prod_k
+# e_k . R d_k >, the SO(3) quadrature evaluated for the vectors ACTUALLY PASSED; on the real
+# pipeline additionally its consequence for the calculated response (with the ledger clause the
+# response is sum_pathways pref * line shape, so it is linear in every polarisation vector).
+NAX = {"D": list(ISO.POLARISATIONS["D"]), "M": list(ISO.POLARISATIONS["M"]),
+       "G": [2.0 / 7.0, -3.0 / 7.0, 6.0 / 7.0]}
+POLLEN_DIRS = {"quick": ["D", "G"], "thorough": ["D", "G", "M"]}
+POLLEN_FACTORS = {"quick": [1.0, 2.0, 0.5], "thorough": [1.0, 2.0, 0.5, -1.5, 1e-3]}
+# real pipeline: base direction four-tuples and systems (size, J); factor set as above, for the
+# trimer (hundreds of pathways) the first three factors in both tiers
+# side patterns of the stub level (the sign of a diagram does not interact with the lengths: the
+# three patterns of the quick tier in both tiers)
+POLLEN_SIDES = SIDES["quick"]
+POLLEN_SYS_DIRS = {"quick": ["DGMD"], "thorough": ["DGMD", "GGDM"]}
+POLLEN_SYS = {"quick": [(2, 80)], "thorough": [(2, 0), (2, 80), (2, -150), (3, 80)]}
+
+
+def nax_vectors(dirs, ft=(1.0, 1.0, 1.0, 1.0)):
+    """The four polarisation vectors f_k * u_k for the direction letters `dirs`."""
+    return numpy.array([[float(f) * x for x in NAX[ch]] for ch, f in zip(dirs, ft)], dtype=float)
+
+
+def _nonunit_summary(failing):
+    """Deterministic tag of a set of failing factor four-tuples: the vectors whose length ALONE
+    (all others of unit length) breaks the clause."""
+    single = sorted(set(k for ft in failing for k in range(4)
+                        if ft[k] != 1.0 and all(ft[j] == 1.0 for j in range(4) if j != k)))
+    if single:
+        return "nonunit=" + "+".join("e%d" % (k + 1) for k in single)
+    if any(all(f == 1.0 for f in ft) for ft in failing):
+        return "unit-vectors"
+    return "nonunit=combinations-only"
+
+
+def eval_pollen_lab(case, tier):
+    """Stub pathways (as section `lab`): all 4^4 dipole four-tuples x the side patterns
+    POLLEN_SIDES are built once; every factor four-tuple makes a LabSetup, on which every
+    pathway is averaged."""
+    from quantarhei.spectroscopy.diagramatics import liouville_pathway
+    dirs = case["dirs"]
+    facs = POLLEN_FACTORS[tier]
+    R, w = ISO.rule()
+    dnorm = numpy.sqrt(numpy.sum(DIP4 ** 2, axis=1))
+    dsc = numpy.einsum("i,j,k,l->ijkl", dnorm, dnorm, dnorm, dnorm)
+    stub = types.SimpleNamespace(HH=numpy.diag(numpy.arange(9, dtype=float)),
+                                 DD=numpy.zeros((9, 9, 3)),
+                                 rho0=numpy.zeros((9, 9), dtype=complex))
+    stub.rho0[0, 0] = STUB_RHO0
+    tuples = list(itertools.product(range(4), repeat=4))
+    worst, nev = 0.0, 0
+    failing, first = [], None
+    obs = [0.0, 0.0]
+    for sides in POLLEN_SIDES:
+        trans = _stub_scheme(sides)
+        sref = ISO.diagram_sign(sides)
+        lps = []
+        for dt in tuples:
+            for k in range(4):
+                stub.DD[trans[k][0], trans[k][1], :] = DIP4[dt[k]]
+            lp = liouville_pathway("R", 0, aggregate=stub, order=3, pname="stub")
+            for k in range(4):
+                lp.add_transition(trans[k], sides[k])
+            lp.set_evolution_factor(STUB_EVF)
+            lp.build()
+            lps.append(lp)
+        for ft in itertools.product(facs, repeat=4):
+            ev = nax_vectors(dirs, ft)
+            lab = make_lab(ev)
+            got = numpy.zeros((4, 4, 4, 4), dtype=complex)
+            for dt, lp in zip(tuples, lps):
+                lp.orientational_averaging(lab)
+                got[dt] = lp.pref
+            nev += len(lps)
+            P = numpy.einsum("ki,rij,mj->rkm", ev, R, DIP4)          # e_k . R_r d_m
+            exp = numpy.einsum("r,ra,rb,rc,rd->abcd", w, P[:, 0], P[:, 1], P[:, 2], P[:, 3],
+                               optimize=True) * (sref * STUB_RHO0 * STUB_EVF)
+            fprod = float(numpy.prod(numpy.abs(ft)))
+            scale = STUB_RHO0 * abs(STUB_EVF) * dsc * fprod
+            err = numpy.abs(got - exp) / scale
+            err = numpy.where(numpy.isfinite(err), err, numpy.inf)
+            worst = max(worst, float(numpy.max(err)))
+            fin = numpy.where(numpy.isfinite(got), got, 0.0) / fprod
+            obs[0] += float(abs(numpy.sum(fin)))
+            obs[1] += float(numpy.sum(numpy.abs(fin)))
+            if not numpy.max(err) <= TOL:
+                failing.append(tuple(ft))
+                if first is None:
+                    dt = tuple(int(i) for i in numpy.unravel_index(int(numpy.argmax(err)),
+                                                                   err.shape))
+                    first = (ft, dt, sides, complex(got[dt]), complex(exp[dt]), float(err[dt]),
+                             numpy.asarray(lab.F4eM4).tolist(), ev.tolist())
+    viol = []
+    if failing:
+        ft, dt, sides, g, e, r, f4, ev = first
+        viol.append(("pref/pol-length/lab/value/%s" % _nonunit_summary(failing),
+                     "polarisation vectors = factors %s x unit directions %s, dipoles %s, sides "
+                     "%s: pref=%r, SO(3) average for the vectors passed *sign*rho0*evf=%r (rel.dev "
+                     "%.3g); fails for %d of %d factor four-tuples x side patterns"
+                     % (list(ft), dirs, list(dt), list(sides), g, e, r, len(failing),
+                        len(facs) ** 4 * len(POLLEN_SIDES)),
+                     {"factors": list(ft), "directions": dirs, "vectors": ev, "dipoles": list(dt),
+                      "sides": list(sides), "F4eM4": f4,
+                      "failing_factor_tuples": [list(x) for x in sorted(set(failing))[:20]]}))
+    return {"nontrivial": bool(obs[1] > 1e-9), "outcome": ["pollen-lab", dirs, round(obs[0], 9),
+                                                          round(obs[1], 9)],
+            "violations": viol, "n": nev - 1,
+            "info": {"dev": {"pollen-pref-lab": worst}, "unbuildable": 0}}
+
+
+def eval_pollen_sys(case, tier):
+    """Real pipeline: one system, one direction four-tuple, ALL factor four-tuples."""
+    spec = spec_of(case)
+    n, shape, dirs = spec["n"], spec["shape"], case["dirs"]
+    facs = POLLEN_FACTORS[tier] if n == 2 else POLLEN_FACTORS[tier][:3]
+    viol, dev = {}, {}
+    fails = {}                      # key -> failing factor tuples
+
+    def add(key, ft, what, det=None):
+        fails.setdefault(key, []).append(tuple(ft))
+        if key not in viol:
+            viol[key] = [key, what, dict(det or {}, factors=list(ft), directions=dirs)]
+
+    def worst(name, x):
+        x = float(x) if numpy.isfinite(x) else 1e300
+        dev[name] = max(dev.get(name, 0.0), x)
+
+    bench = Bench(spec)
+    agg = bench.system()
+    unit = (1.0, 1.0, 1.0, 1.0)
+    base, pws1 = bench.response(agg, make_lab(nax_vectors(dirs, unit)))
+    cen1 = census(pws1)
+    digest = []
+    for ft in itertools.product(facs, repeat=4):
+        ev = nax_vectors(dirs, ft)
+        r, p = bench.response(agg, make_lab(ev))
+        fprod = float(numpy.prod(ft))
+        where = "polarisation vectors = factors %s x unit directions %s" % (list(ft), dirs)
+        digest.append(round(float(numpy.max(numpy.abs(r["total"]))) / abs(fprod), 6))
+        # ---- pref for the vectors actually passed (prefactors as the pipeline made them)
+        if p:
+            rel, got, ref = pref_as_made(agg, p, ev)
+            worst("pollen-pref", numpy.max(rel))
+            if not numpy.max(rel) <= TOL:
+                ip = int(numpy.argmax(rel))
+                add("pol-length/pref/pathway/%s/value" % p[ip].pathway_name, ft,
+                    "pathway #%d %s transitions %s: pref=%r but sign*rho0*evf*<SO(3) average for "
+                    "the vectors passed>=%r (rel.dev %.3g); %s"
+                    % (ip, p[ip].pathway_name, p[ip].transitions.tolist(), complex(got[ip]),
+                       complex(ref[ip]), float(rel[ip]), where))
+        # ---- the generated pathways do not depend on the lengths
+        cen = census(p)
+        if cen != cen1:
+            add("pol-length/census/%s" % census_diff(cen, cen1), ft,
+                "generated pathways %s, with unit vectors of the same directions %s; %s"
+                % (sorted(cen.items()), sorted(cen1.items()), where))
+        # ---- the response is linear in each of the four polarisation vectors
+        d, parts = sig_dev(r, base, factor=fprod)
+        worst("pollen-multilinear", d)
+        if not d <= TOL:
+            add("pol-length/multilinear/%s" % parts, ft,
+                "%s signal differs from (f1 f2 f3 f4 = %g) x the response for the unit vectors "
+                "of the same directions by %.3g (relative); %s" % (parts, fprod, d, where))
+        # ---- total == REPH + NONR
+        sc = max(float(numpy.max(numpy.abs(r["REPH"]))), float(numpy.max(numpy.abs(r["NONR"]))),
+                 1e-300)
+        d = float(numpy.max(numpy.abs(r["total"] - (r["REPH"] + r["NONR"])))) / sc
+        worst("pollen-total-sum", d)
+        if not d <= TOL:
+            add("pol-length/total/sum/%s" % shape, ft,
+                "total differs from REPH+NONR by %.3g (relative); %s" % (d, where))
+    out = []
+    for key, (k, what, det) in viol.items():
+        det["failing_factor_tuples"] = [list(x) for x in fails[key][:20]]
+        out.append((k + "/" + _nonunit_summary(fails[key]),
+                    what + " [fails for %d of %d factor four-tuples]"
+                    % (len(fails[key]), len(facs) ** 4), det))
+    nontrivial = bool(len(pws1) > 0 and float(numpy.max(numpy.abs(base["total"]))) > 0.0)
+    return {"nontrivial": nontrivial,
+            "outcome": ["pollen-sys", n, case["J"], shape, dirs, sorted(cen1.items()),
+                        round(float(numpy.max(numpy.abs(base["total"]))), 6),
+                        round(float(numpy.sum(digest)), 6)],
+            "violations": out, "n": bench.ncalc - 1,
+            "info": {"dev": dev, "unbuildable": 0, "npw": len(pws1)}}
+
+
+def eval_pollen(case, tier):
+    return eval_pollen_lab(case, tier) if case["level"] == "lab" else eval_pollen_sys(case, tier)
+
+
+# ------------------------------------------------------------------------------------------
 def eval_case(case):
     tier = case.get("_tier", "quick")
     if case["kind"] == "lab":
@@ -1519,6 +1729,8 @@ def eval_case(case):
         return eval_wait(case, tier)
     if case["kind"] == "hist":
         return eval_hist(case, tier)
+    if case["kind"] == "pollen":
+        return eval_pollen(case, tier)
     return eval_sys(case, tier)
 
 
@@ -1585,6 +1797,17 @@ def sections(tier):
                            "shape": ["Gaussian"] if quick else ["Gaussian", "Lorentzian"],
                            "api": ["one"] if quick else ["one", "all"],
                            "first": HIST_OPS[tier]})
+    # polarisation vectors of general length: one case = one direction four-tuple (stub level)
+    # resp. system x line shape x direction four-tuple (real pipeline); inside: ALL factor
+    # four-tuples
+    pl = product({"kind": ["pollen"], "level": ["lab"],
+                  "dirs": ["".join(t) for t in itertools.product(POLLEN_DIRS[tier], repeat=4)]})
+    for (n, J) in POLLEN_SYS[tier]:
+        pl += product({"kind": ["pollen"], "level": ["sys"], "n": [n], "en": ["hetero"],
+                       "J": [J], "topo": ["chain"], "lw": ["mixed"], "t2": [20.0],
+                       "shape": ["Gaussian", "Lorentzian"], "dyn": ["deph"],
+                       "dirs": POLLEN_SYS_DIRS[tier]})
+    sec["pollen"] = pl
     for lst in sec.values():
         for c in lst:
             c["_tier"] = tier
@@ -1599,7 +1822,7 @@ def cases(tier):
 
 
 def run(run):
-    run.rule = ("five complete products: `lab` = all 5^4 polarisation four-tuples (inside each: all "
+    run.rule = ("six complete products: `lab` = all 5^4 polarisation four-tuples (inside each: all "
                 "4^4 dipole four-tuples x all side patterns of the tier); `sys` = size x site "
                 "energies x coupling x topology x line-width pattern x waiting time x line shape "
                 "x excited-state dynamics (inside each: all 5^4 polarisation four-tuples on every "
@@ -1657,6 +1880,17 @@ def run(run):
         "wait: the census reference counts an evolution-superoperator element as present if its "
         "magnitude is >= 1e-4 and as absent if <= 1e-12 (the library screens at 1e-6); a waiting "
         "time with an element in between is not given a census verdict (counted in the notes)")
+    run.rule += ("; `pollen` = polarisation vectors f_k x unit direction: stub level = ALL direction "
+                 "four-tuples of the non-axis alphabet (inside each: ALL factor four-tuples x all "
+                 "4^4 dipole four-tuples x side patterns), pipeline level = system x line shape x "
+                 "direction four-tuple (inside each: ALL factor four-tuples); oracle = pref with "
+                 "the SO(3) average for the vectors actually passed, census, multilinearity of "
+                 "the response, total")
+    run.assumptions.append(
+        "pollen: a polarisation vector of length f stands for a field amplitude f; the prefactor "
+        "is the average of the product of the four field-dipole projections for the vectors as "
+        "passed (property text), so it and the response scale with f1 f2 f3 f4; a zero vector "
+        "is not in the factor set")
     run.assumptions.append(
         "hist: the requests are made outside any basis / units context; a history starts from "
         "an aggregate that was built and diagonalised (the state every other section of this "
@@ -1669,6 +1903,10 @@ def run(run):
                   "hist: systems": HIST_SYSTEMS[run.tier],
                   "hist: polarisations": HIST_POLS[run.tier],
                   "hist: start states": HIST_STARTS,
+                  "pollen: factors per polarisation vector": POLLEN_FACTORS[run.tier],
+                  "pollen: non-axis directions": POLLEN_DIRS[run.tier],
+                  "pollen: pipeline systems (n, J) / directions": [list(map(list, POLLEN_SYS[run.tier])),
+                                                                   POLLEN_SYS_DIRS[run.tier]],
                   "dipole scales (sys, reuse)": DIPSCALES[run.tier],
                   "dipole scales (lab)": LAB_SCALES[run.tier],
                   "rotations on scaled systems": len(ROTS_SCALED[run.tier]),
